@@ -55,6 +55,47 @@ def render(t, n):
         return S + "var x=0,i=0;do{i=i+1;" + "x=x+1;" * n + "}while(i<2); x"
     if t == "forloop":
         return S + "var x=0;for(var i=0;i<3;i=i+1){" + "x=x+1;" * n + "x=x+1;} x"
+    if t == "dowhile_continue":
+        return S + "var x=0,i=0; do { i=i+1; if (i<3) continue; " + "x=x+1;" * n + " } while (i<3); x"
+    if t == "for_continue":
+        return S + "function f(){ var x=0; for (var i=0;;i=i+1) { if (i<2) continue; " + "x=x+1;" * n + " return x } } f()"
+    if t == "switch_nobreak":
+        return S + "var x=0;" + "x=x+1;" * n + " switch (1) { case 0: x=x+1000; case 1: x=x+100; default: x=x+7 } x"
+    if t == "switch_default_first":
+        return S + "var x=0;" + "x=x+1;" * n + " switch (5) { default: x=x+7; case 0: x=x+0 } x"
+    if t == "while_continue_labelled":
+        return S + "var x=0,i=0; outer: while (i<2) { i=i+1; var j=0; while (j<1) { j=j+1; " + "x=x+1;" * n + " continue outer } } x"
+    if t.startswith("w_"):
+        _, payload, wrap = t.split("_", 2)
+        pre = S + "function g(){ return arguments.length } function G(){ this.n = arguments.length } "
+        if payload == "consts":
+            e = "(" + ",".join("'c%d'" % i for i in range(n)) + ")"
+        elif payload == "array":
+            e = "[" + ",".join(str(m7(i)) for i in range(n)) + "].length"
+        elif payload == "object":
+            e = "Object.keys({" + ",".join("k%d:%d" % (i, m7(i)) for i in range(n)) + "}).length"
+        elif payload == "args":
+            e = "g(" + ",".join("1" for _ in range(n)) + ")"
+        elif payload == "newargs":
+            e = "new G(" + ",".join("1" for _ in range(n)) + ").n"
+        else:
+            raise ValueError(payload)
+        W = {
+            "program": "%s",
+            "fdecl": "function f(){ return %s } f()",
+            "fexpr": "var f = function(){ return %s }; f()",
+            "arrow_block": "var f = () => { return %s }; f()",
+            "arrow_expr": "var f = () => %s; f()",
+            "getter": "var o = { get v(){ return %s } }; o.v",
+            "setter": "var got; var o = { set v(z){ got = %s } }; o.v = 1; got",
+            "callback": "[1].map(function(){ return %s })[0]",
+            "nested": "function outer(){ var inner = function(){ return %s }; return inner() } outer()",
+            "arrow_in_fn": "function outer(){ var inner = () => %s; return inner() } outer()",
+            "fn_in_arrow": "var outer = () => { var inner = function(){ return %s }; return inner() }; outer()",
+            "ctor": "function C(){ this.v = %s } new C().v",
+            "sortcmp": "var got; [2,1].sort(function(a,b){ got = %s; return a-b }); got",
+        }[wrap]
+        return pre + (W % e)
     raise ValueError(t)
 
 
